@@ -480,6 +480,23 @@ func (c *Ctx) evalCall(env *Env, x *ast.CallExpr) Val {
 		}
 		return c.applySpecFunc(env, sp, av)
 	}
+	// a loop-free function of the package under verification, used as its own
+	// specification (pure function of its arguments)
+	if c.top != nil && c.top.Package() != nil {
+		if fn := c.top.Package().Func(id.Name); fn != nil && len(fn.Blocks) > 0 && !hasLoops(fn) {
+			var av []Val
+			for i, a := range args {
+				v := c.eval(env, a)
+				if t, ok := v.(T); ok && i < len(fn.Params) {
+					if k, ok2 := sortOfBasic(fn.Params[i].Type()); ok2 && k == SReal {
+						v = toReal(t)
+					}
+				}
+				av = append(av, v)
+			}
+			return c.applySpec(env, FuncV{Fn: fn, Sig: fn.Signature}, av)
+		}
+	}
 	panic(vcErr("unknown function %s in contract", id.Name))
 }
 
